@@ -177,3 +177,94 @@ Theorem C20_judge_textwrite_accepts_exactly_the_specification :
     TextModel.judge_textwrite rec = 0%Z <-> JudgeComplete2.textwrite_spec fmt ty m n M bytes rc2 res.
 Proof. exact JudgeComplete2.judge_textwrite_iff. Qed.
 Print Assumptions C20_judge_textwrite_accepts_exactly_the_specification.
+
+(* ---------- the judge accepts EXACTLY the records that satisfy its specification (JudgeComplete3.v): completeness besides soundness,
+   a record of a correct answer is never rejected ---------- *)
+From Cmr Require JudgeComplete3.
+Theorem C20_judge_climat_accepts_exactly_the_specification :
+    forall (rec : list Z) (infmt outfmt : Z) (tr : bool) (task : Z) (hasS : bool) 
+    (rs cs : list nat) (inb : list Z) (rc : Z) (hasout : bool) (outb rest : list Z),
+    CliProofs.climat_input rec = Some (infmt, outfmt, tr, task, hasS, rs, cs, inb, rc, hasout, outb, rest) ->
+    CliModel.judge_climat rec = 0%Z <->
+    JudgeComplete3.climat_spec infmt outfmt tr task hasS rs cs inb rc hasout outb.
+Proof. exact JudgeComplete3.judge_climat_iff. Qed.
+Print Assumptions C20_judge_climat_accepts_exactly_the_specification.
+Theorem C20_judge_climatd_accepts_exactly_the_specification :
+    forall (rec : list Z) (infmt outfmt : Z) (tr : bool) (task : Z) (hasS : bool) 
+    (rs cs : list nat) (inb : list Z) (rc : Z) (hasout : bool) (outb rest : list Z),
+    CliProofs.climatd_input rec =
+    Some (infmt, outfmt, tr, task, hasS, rs, cs, inb, rc, hasout, outb, rest) ->
+    CliModel.judge_climatd rec = 0%Z <->
+    JudgeComplete3.climatd_spec infmt outfmt tr task hasS rs cs inb rc hasout outb.
+Proof. exact JudgeComplete3.judge_climatd_iff. Qed.
+Print Assumptions C20_judge_climatd_accepts_exactly_the_specification.
+Theorem C20_judge_matutil_unary_accepts_exactly_the_specification :
+    forall (rec : list Z) (op ty : Z) (m n : nat) (M : mat) (rest : list Z) (rc : Z) 
+    (r : MatModel.mres) (rest' : list Z),
+    MatProofs.matutil_head rec = Some (op, ty, (m, n, M), rest) ->
+    MatProofs.matutil_result rest = Some (rc, r, rest') ->
+    op = 1%Z \/ op = 4%Z \/ op = 5%Z \/ op = 7%Z ->
+    MatModel.judge_matutil rec = 0%Z <-> JudgeComplete3.matutil_unary_spec op ty m n M rc r.
+Proof. exact JudgeComplete3.judge_matutil_unary_iff. Qed.
+Print Assumptions C20_judge_matutil_unary_accepts_exactly_the_specification.
+Theorem C20_judge_matutil_det_accepts_exactly_the_specification :
+    forall (rec : list Z) (ty : Z) (m n : nat) (M : mat) (rest : list Z) (rc : Z) 
+    (r : MatModel.mres) (rest' : list Z),
+    MatProofs.matutil_head rec = Some (6%Z, ty, (m, n, M), rest) ->
+    MatProofs.matutil_result rest = Some (rc, r, rest') ->
+    MatModel.judge_matutil rec = 0%Z <-> JudgeComplete3.matutil_det_spec m n M rc r.
+Proof. exact JudgeComplete3.judge_matutil_det_iff. Qed.
+Print Assumptions C20_judge_matutil_det_accepts_exactly_the_specification.
+Theorem C20_judge_matutil_submat_accepts_exactly_the_specification :
+    forall (rec : list Z) (op ty : Z) (m n : nat) (M : mat) (rest : list Z) (rs cs : list nat)
+    (rest2 : list Z) (rc : Z) (r : MatModel.mres) (rest3 : list Z),
+    MatProofs.matutil_head rec = Some (op, ty, (m, n, M), rest) ->
+    MatProofs.submat_args op m n rest = Some (rs, cs, rest2) ->
+    MatProofs.matutil_result rest2 = Some (rc, r, rest3) ->
+    op = 2%Z \/ op = 3%Z ->
+    MatModel.judge_matutil rec = 0%Z <-> JudgeComplete3.matutil_submat_spec ty m n M rs cs rc r.
+Proof. exact JudgeComplete3.judge_matutil_submat_iff. Qed.
+Print Assumptions C20_judge_matutil_submat_accepts_exactly_the_specification.
+Theorem C20_judge_matutil_tests_accepts_exactly_the_specification :
+    forall (rec : list Z) (op ty : Z) (m n : nat) (M : mat) (rest : list Z) (m2 n2 : nat) 
+    (M2 : mat) (rc : Z) (r : MatModel.mres) (rest' : list Z),
+    MatProofs.matutil_head rec = Some (op, ty, (m, n, M), rest) ->
+    MatProofs.binary_args rest = Some (m2, n2, M2, rc, r, rest') ->
+    op = 8%Z \/ op = 9%Z ->
+    MatModel.judge_matutil rec = 0%Z <-> JudgeComplete3.matutil_tests_spec op m n M m2 n2 M2 rc r.
+Proof. exact JudgeComplete3.judge_matutil_tests_iff. Qed.
+Print Assumptions C20_judge_matutil_tests_accepts_exactly_the_specification.
+Theorem C20_judge_matutil_onesum_accepts_exactly_the_specification :
+    forall (rec : list Z) (ty : Z) (m n : nat) (M : mat) (rest : list Z) (m2 n2 : nat) 
+    (M2 : mat) (rc : Z) (r : MatModel.mres) (rest' : list Z),
+    MatProofs.matutil_head rec = Some (10%Z, ty, (m, n, M), rest) ->
+    MatProofs.binary_args rest = Some (m2, n2, M2, rc, r, rest') ->
+    MatModel.judge_matutil rec = 0%Z <-> JudgeComplete3.matutil_onesum_spec m n M m2 n2 M2 rc r.
+Proof. exact JudgeComplete3.judge_matutil_onesum_iff. Qed.
+Print Assumptions C20_judge_matutil_onesum_accepts_exactly_the_specification.
+Theorem C20_judge_matutil_subio_accepts_exactly_the_specification :
+    forall (rec : list Z) (ty : Z) (m n : nat) (M : mat) (rest : list Z) (rs cs : list nat) 
+    (rc : Z) (r : MatModel.mres) (rest' : list Z),
+    MatProofs.matutil_head rec = Some (11%Z, ty, (m, n, M), rest) ->
+    MatProofs.subio_args rest = Some (rs, cs, rc, r, rest') ->
+    MatModel.judge_matutil rec = 0%Z <-> JudgeComplete3.matutil_subio_spec m n rs cs rc r.
+Proof. exact JudgeComplete3.judge_matutil_subio_iff. Qed.
+Print Assumptions C20_judge_matutil_subio_accepts_exactly_the_specification.
+Theorem C20_judge_matutil_subslice_accepts_exactly_the_specification :
+    forall (rec : list Z) (ty : Z) (m n : nat) (M : mat) (rest : list Z) (brs bcs irs ics : list nat)
+    (rc : Z) (r : MatModel.mres) (rest' : list Z),
+    MatProofs.matutil_head rec = Some (12%Z, ty, (m, n, M), rest) ->
+    MatProofs.subslice_args rest = Some (brs, bcs, irs, ics, rc, r, rest') ->
+    MatModel.judge_matutil rec = 0%Z <->
+    JudgeComplete3.matutil_slice_spec MatModel.sub_slice brs bcs irs ics rc r.
+Proof. exact JudgeComplete3.judge_matutil_subslice_iff. Qed.
+Print Assumptions C20_judge_matutil_subslice_accepts_exactly_the_specification.
+Theorem C20_judge_matutil_subunslice_accepts_exactly_the_specification :
+    forall (rec : list Z) (ty : Z) (m n : nat) (M : mat) (rest : list Z) (brs bcs irs ics : list nat)
+    (rc : Z) (r : MatModel.mres) (rest' : list Z),
+    MatProofs.matutil_head rec = Some (13%Z, ty, (m, n, M), rest) ->
+    MatProofs.subslice_args rest = Some (brs, bcs, irs, ics, rc, r, rest') ->
+    MatModel.judge_matutil rec = 0%Z <->
+    JudgeComplete3.matutil_slice_spec MatModel.sub_unslice brs bcs irs ics rc r.
+Proof. exact JudgeComplete3.judge_matutil_subunslice_iff. Qed.
+Print Assumptions C20_judge_matutil_subunslice_accepts_exactly_the_specification.
